@@ -27,6 +27,13 @@ def gen_frame_spec(rng, shape, batch, max_rows=40, min_rows=1, permute=True):
         cols.append([name, kind, nullmode, rng.randrange(2 ** 31), extra])
     part = {n: [k, ch, rng.randrange(2 ** 31)]
             for n, (k, ch) in shape['parts'].items()}
+    if shape.get('pnull') and not any(v[0] == 'pcat' for v in part.values()):
+        # some frames carry rows without a partition key (not together with
+        # a categorical partition column: pandas' own groupby fails there
+        # with an IndexError - nothing fastparquet decides)
+        for n in part:
+            if rng.random() < 0.5:
+                part[n].append(rng.choice((0.15, 0.4, 0.9)))
     order = [c[0] for c in cols] + list(part)
     if permute and rng.random() < 0.5:
         rng.shuffle(order)
